@@ -17,7 +17,7 @@ use crate::ctx::{hx, Ctx};
 use crate::sodium as na;
 
 pub fn run(cx: &mut Ctx) {
-    let n = cx.tier.pick(16usize, 2000, 100_000);
+    let n = cx.tier.pick(16usize, 2000, 600_000);
     let mut idx = 0u64;
 
     // ------------------------------------------------ box key pairs from seeds of every length 0..=128
@@ -173,7 +173,7 @@ pub fn run(cx: &mut Ctx) {
     }
 
     // ------------------------------------------------------------ key pair derived from a password
-    let npw = cx.tier.pick(4usize, 300, 6000);
+    let npw = cx.tier.pick(4usize, 300, 60_000);
     for i in 0..npw {
         idx += 1;
         if !cx.mine(idx) {
